@@ -303,6 +303,7 @@ type scenario struct {
 	gates       *gateSet
 	deleted     []*scluster
 	incarnation int
+	retryFlip   bool
 	sigCtx      string // appended to violation signatures while the overlap phase is judged
 	caseN       int
 	features    map[string]bool
@@ -621,6 +622,13 @@ func (s *scenario) run(nops int) {
 			s.retryCase(true)
 			continue
 		}
+		if (s.idx%12 == 1 || s.idx%12 == 7) && i == nops/2 {
+			// the same with a health flip instead of a move: the answering server becomes unready during the failing attempt
+			s.retryFlip = true
+			s.retryCase(s.idx%12 == 7)
+			s.retryFlip = false
+			continue
+		}
 		if len(s.deleted) > 0 && g.Chance(0.06) {
 			// a deleted cluster is created again under the same object name: a new incarnation behind the old host name
 			old := s.deleted[g.Intn(len(s.deleted))]
@@ -826,7 +834,7 @@ func TestCheck(t *testing.T) {
 			"first request is held at a barrier inside the reactor until the other requests have been issued (and have reached their own cluster's barrier or returned), so the overlap is " +
 			"constructed, not hoped for; the credentials are then replayed sequentially on the same hosts; retry phase (one per 6th scenario): the first SubjectAccessReview of a fresh user x attribute tuple " +
 			"(plain or impersonate) fails with a retriable API error (500 InternalError or 429 with Retry-After, what webhook.DefaultShouldRetry retries); the reactor signals the harness before it returns the error, " +
-			"the harness moves the alias to another live cluster, then lets the error return, so the retry (after the production 500 ms back-off) happens after the move. Cache TTL pairs from " +
+			"the harness moves the alias to another live cluster - or, in other cases, makes the answering server unready while another server of the cluster stays ready - then lets the error return, so the retry (after the production 500 ms back-off) happens after the change. Cache TTL pairs from " +
 			"{0, 50ms, 10s, 1h} incl. asymmetric ones. Oracle: provenance monitor (see package comment) + every review caused by a request is received by the cluster owning the host. " +
 			"Production wiring (8 worlds in quick, 60 in thorough): real controller = Manager = ClientProvider, authenticator/authorizer from the production config constructors, real handler chain, HTTP stub upstreams serving " +
 			"TokenReview/SAR and recording the impersonated identity of forwarded requests; sequential and 4-client concurrent phases, alias moves, requests whose TLS connection state carries a server name " +
@@ -868,6 +876,7 @@ func TestCheck(t *testing.T) {
 			"too few request pairs with the same credentials overlapped (review of the first in flight while the second was issued)")
 		r.Require(r.Counter("clusters_recreated_under_same_name") >= int64(ns/10), "too few clusters deleted and created again under the same name")
 		r.Require(r.Counter("authz_requests_with_uncacheable_attributes") >= int64(ns) && r.Counter("authz_requests_with_odd_characters") >= int64(ns), "too few requests with boundary attribute values")
+		r.Require(r.Counter("retry_cases_endpoint_became_unready_authn") >= int64(ns/30) && r.Counter("retry_cases_endpoint_became_unready_authz") >= int64(ns/30), "too few reviews were retried after the answering server had become unready")
 		r.Require(r.Counter("retry_cases_authn") >= int64(ns/12), "too few token reviews were retried after a retriable failure with the host moved in between")
 		r.Require(r.Counter("retry_cases") >= int64(ns/12) && r.Counter("retry_cases_impersonation") >= int64(ns/60),
 			"too few reviews were retried after a retriable failure with the host moved to another cluster in between")
